@@ -25,6 +25,8 @@ def run(ctx):
         names[cls] = qn
         for q in qn:
             jobs.append({"cls": cls, "q1": q, "q2": None})
+            if cls in pe.BASE2:
+                jobs.append({"cls": cls, "q1": q, "q2": None, "base": pe.BASE2[cls]})
         pairs = [(a, b) for a in qn for b in qn]
         rnd = random.Random(ctx.seed * 7919 + len(qn))
         rnd.shuffle(pairs)
@@ -39,7 +41,7 @@ def run(ctx):
     ctx.exhaustive = not quick
     results = pmap(pe.eval_pair, jobs, chunksize=4)
     for job, mism in zip(jobs, results):
-        ctx.case((job["cls"], job["q1"], job["q2"]), nontrivial=True,
+        ctx.case((job["cls"], job["q1"], job["q2"], job.get("base")), nontrivial=True,
                  sample={"class": job["cls"], "history": ["construct", "hand out all arrays", job["q1"], job["q2"], job["q1"]]})
         ctx.traces += 1
         for sig, detail in mism:
